@@ -49,11 +49,40 @@ impl<'s, const M: usize> Exec<'s, M> {
             Ctor::WithCap(c) => (false, Some(c)),
             Ctor::TryWithCap(c) => (!twin, Some(c)),
         };
-        let r = simalloc::arena_call(arena, || match (fallible, cap) {
-            (false, None) => Ok(Bump::<M>::with_min_align()),
-            (false, Some(c)) => Ok(Bump::<M>::with_min_align_and_capacity(c)),
-            (true, Some(c)) => Bump::<M>::try_with_min_align_and_capacity(c).map_err(|_| ()),
-            (true, None) => unreachable!(),
+        let try_new = matches!(ctor, Ctor::TryNew);
+        let r = simalloc::arena_call(arena, || {
+            if M == 1 {
+                // Bump<1> has its own constructor family (new, try_new, with_capacity, try_with_capacity)
+                let mut slot: Option<Bump<M>> = None;
+                let mut res: Result<(), ()> = Ok(());
+                if let Some(s1) = (&mut slot as &mut dyn std::any::Any).downcast_mut::<Option<Bump<1>>>() {
+                    match (fallible, cap) {
+                        (false, None) => *s1 = Some(Bump::new()),
+                        (false, Some(c)) => *s1 = Some(Bump::with_capacity(c)),
+                        (true, Some(_)) if try_new => match Bump::try_new() {
+                            Ok(b) => *s1 = Some(b),
+                            Err(_) => res = Err(()),
+                        },
+                        (true, Some(c)) => match Bump::try_with_capacity(c) {
+                            Ok(b) => *s1 = Some(b),
+                            Err(_) => res = Err(()),
+                        },
+                        (true, None) => unreachable!(),
+                    }
+                }
+                return match (res, slot) {
+                    (Err(()), _) => Err(()),
+                    (Ok(()), Some(b)) => Ok(b),
+                    (Ok(()), None) => unreachable!(),
+                };
+            }
+            match (fallible, cap) {
+                (false, None) if M == 2 || M == 8 => Ok(<Bump<M> as Default>::default()),
+                (false, None) => Ok(Bump::<M>::with_min_align()),
+                (false, Some(c)) => Ok(Bump::<M>::with_min_align_and_capacity(c)),
+                (true, Some(c)) => Bump::<M>::try_with_min_align_and_capacity(c).map_err(|_| ()),
+                (true, None) => unreachable!(),
+            }
         });
         let r = match r {
             Ok(x) => CallOut::Ret(x),
